@@ -245,6 +245,10 @@ def gen_c13(rng: random.Random, tier: str) -> dict:
     ncl = rng.choice([1, 2, 2, 3])
     clients = []
     mode = rng.random()
+    # calm runs: nothing raises and nobody asks for the *result* of a task
+    # that is not its own live one, so no connection is closed early and
+    # the request sequences run to their full length
+    calm = 0.3 <= mode < 0.6
     for ci in range(ncl):
         script = []
         nprog = rng.choice([1, 1, 2, 3])
@@ -253,8 +257,8 @@ def gen_c13(rng: random.Random, tier: str) -> dict:
             prog = tasktree.gen_program(
                 rng, max_nodes=rng.choice([4, 8, 15] + ([30] if big else [])),
                 max_depth=rng.randint(2, 3), max_fanout=rng.randint(2, 4),
-                raises=rng.choice([0, 0, 0, 1, 1, 2]), logs=True,
-                id_base=10000 * ci + 1000 * k,
+                raises=0 if calm else rng.choice([0, 0, 0, 1, 1, 2]),
+                logs=True, id_base=10000 * ci + 1000 * k,
             )
             script.append({'op': 'submit', 'as': f't{k}', 'prog': prog})
             names.append(f't{k}')
@@ -286,7 +290,13 @@ def gen_c13(rng: random.Random, tier: str) -> dict:
                     t = 'unknown'
                 if rng.random() < 0.15:
                     script.append({'op': 'sleep', 'd': 0.01})
-                script.append({'op': rng.choice(REQ_OPS), 't': t})
+                op = rng.choice(REQ_OPS)
+                if calm and op == 'result' and (
+                        t not in names
+                        or any(o.get('t') == t and o['op'] in
+                               ('result', 'cancel') for o in script)):
+                    op = 'status'
+                script.append({'op': op, 't': t})
         if rng.random() < 0.5:
             prog = tasktree.gen_program(
                 rng, max_nodes=6, max_depth=2, max_fanout=3, logs=True,
